@@ -39,6 +39,9 @@ type Proc struct {
 	A    int64  `json:"a"`              // parameter `a`, passed by value and changed by the caller right after go
 
 	Start    string `json:"start"` // named | var | lit | item | member
+	// Spread: the go call passes its trailing arguments as a spread list `go f(a, [b, c]...)`
+	// (for a variadic callee exactly the variadic tail)
+	Spread bool `json:"spread,omitempty"`
 	GIn      bool   `json:"gin,omitempty"`   // input channel referenced as global instead of parameter
 	GOut     bool   `json:"gout,omitempty"`  // output channel referenced as global
 	GDone    bool   `json:"gdone,omitempty"` // done channel referenced as global
@@ -779,6 +782,16 @@ func renderProc(b *strings.Builder, k int, p Proc, rc renderCtx) {
 
 	fn := "(" + strings.Join(params, ", ") + ") {\n" + body.String() + "}"
 	call := "(" + strings.Join(args, ", ") + ")"
+	if p.Spread && len(args) > 0 {
+		j := len(args) / 2
+		if p.Variadic {
+			j = len(params) - 1
+		}
+		if j <= len(args) {
+			head := append(append([]string{}, args[:j]...), "["+strings.Join(args[j:], ", ")+"]...")
+			call = "(" + strings.Join(head, ", ") + ")"
+		}
+	}
 	b.WriteString(pre)
 	switch p.Start {
 	case "named":
@@ -869,6 +882,7 @@ func genLaunch(t *rapid.T, p *Proc, fanin bool) {
 		p.GJoin = false
 	}
 	p.ArgExpr = rapid.IntRange(0, 3).Draw(t, "argexpr") == 0
+	p.Spread = rapid.IntRange(0, 3).Draw(t, "spreadcall") == 0
 	wantReflect := rapid.Bool().Draw(t, "reflect_path")
 	if wantReflect {
 		if rapid.IntRange(0, 2).Draw(t, "variadic") == 0 {
@@ -1297,6 +1311,9 @@ func classify(c Case, kinds []byte, o *h.Obs) {
 			o.Class("go_path_direct")
 		}
 		o.Class("go_start_" + p.Start)
+		if p.Spread {
+			o.Class("go_call_with_spread_list_" + p.Start)
+		}
 		if p.ArgExpr {
 			o.Class("go_arg_is_expression")
 		}
@@ -1416,4 +1433,6 @@ func TestC16(t *testing.T) {
 	h.Run(c, "closed", c.N(1500, 20000), genClosed, oracleClosed)
 	c.Rule(fmt.Sprintf("fanout: 1..3 sources (200..1000 items in all) into one channel with buffer 1..3, 2..4 worker goroutines consuming it concurrently (for-in / two-value loop / receive-expression loop until nil / capped two-value / capped receive-expression; at least one worker ends only on close), forwarding to a results channel or host out(); GOMAXPROCS 1,2,16 x %d; non-trivial = items > buffer", reps))
 	h.Run(c, "fanout", c.N(36, 40), genFan, oracleFan(reps))
+	c.Rule("twins: 2..4 independent pipelines (1..3 forwarding stages, 0..150 items, buffers 0..2) running at once from ONE source text (one stage function, one runner function); items are int64 or *int64 with every third a nil pointer; a stage hands an item on by a literal call, a parenthesised call, a member call, an element call, a named call or a plain send; every pipeline must deliver exactly its own items in order; GOMAXPROCS 2,4,16 x 1..3; non-trivial = >= 2 items per pipeline")
+	h.Run(c, "twins", c.N(150, 1500), genTwins, oracleTwins)
 }
